@@ -4,6 +4,7 @@ package c01
 import (
 	"bytes"
 	"fmt"
+	mail "github.com/wneessen/go-mail"
 	"strings"
 
 	"verif/harness/bytex"
@@ -311,6 +312,11 @@ func checkLeaves(r *hx.Run, id string, out []byte, want []leafWant, n, e, a int)
 			if l.Disp != wantDisp {
 				r.Fail(c.ID, "leaf-disposition", fmt.Sprintf("%s: disposition %q", tag, l.Disp))
 			}
+			// the declared media type of a file: derived from the extension of ITS OWN name by the standard library
+			// (application/octet-stream when there is none)
+			if wt := bytex.MimeOf(&mail.File{Name: w.name}); !strings.EqualFold(strings.SplitN(wt, ";", 2)[0], l.MediaType) {
+				r.Fail(c.ID, "leaf-file-type", fmt.Sprintf("%s: %q is declared as %q, its extension says %q", tag, w.name, l.MediaType, wt))
+			}
 			wn := sanitizeName(w.name)
 			if mimeread.DecodeWord(l.DispPar["filename"]) != wn || mimeread.DecodeWord(l.CTParams["name"]) != wn {
 				r.Fail(c.ID, "leaf-filename", fmt.Sprintf("%s: filename %q / name %q, want %q", tag, l.DispPar["filename"], l.CTParams["name"], wn))
@@ -352,7 +358,7 @@ func Run(r *hx.Run, replay []hx.Case) {
 	pick := func(l [][]byte) []byte { return l[r.Rng.Intn(len(l))] }
 	names := []string{"a.bin", "report final.pdf", "na\xc3\xafve r\xc3\xa9sum\xc3\xa9.txt", "semi;colon=x.txt", "quote\"d.txt", "UPPER.TXT",
 		// blanks and format characters outside ASCII (no-break space, ideographic space, ZWNJ, soft hyphen): not touched by the documented sanitiser
-		"no\xc2\xa0break.txt", "ideo\xe3\x80\x80space.pdf", "zw\xe2\x80\x8cnj.bin", "soft\xc2\xadhyphen.txt", "latin1-\xe9-not-utf8.bin"}
+		"LICENSE", "picture.png", "blob.unknownext", "no\xc2\xa0break.txt", "ideo\xe3\x80\x80space.pdf", "zw\xe2\x80\x8cnj.bin", "soft\xc2\xadhyphen.txt", "latin1-\xe9-not-utf8.bin"}
 	emit := func(n, e, a int, msgenc string, ci int) {
 		var ps, es, as []string
 		for i := 0; i < n; i++ {
